@@ -191,7 +191,7 @@ func (r *recorder) WriteString(s string) (n int, err error) {
 func (r *recorder) ReadFrom(src io.Reader) (n int64, err error) {
 	if rf, ok := r.ResponseWriter.(io.ReaderFrom); ok {
 		n, err = rf.ReadFrom(src)
-		if err == nil {
+		if n > 0 {
 			if r.size == notWritten {
 				r.size = 0
 			}
